@@ -7,6 +7,8 @@ from gen import constants
 ID = "C17"
 DRIVER = "drv_streams"
 HARNESS = "h_streams"
+QUICK_LEVEL = "thorough"      # the larger case set costs only seconds
+THOROUGH_SEEDS = 3
 GEN = [constants.gen]
 TIE = ['Ufw.Tie.Misc']
 SYMS = ["k1", "k2", "k9", "z", "i", "a", "h:eio", "h:enomem"]
